@@ -141,6 +141,32 @@ def run_main(argv, budget):
     return outcome, detail, cnt.n
 
 
+OUT_FILES = {'--python_out': ['%s.py'], '--cpp_out': ['%s.pp.hpp', '%s.pp.cpp'], '--cpp_full_out': ['%s.ppf.hpp', '%s.ppf.cpp'],
+             '--prophy_out': ['%s.prophy']}
+VALUE_OPTS = set(OUT_FILES) | {'-I', '--include_dir', '-S', '--include_isar', '-p', '--patch'}
+
+
+def requested_outputs(argv):
+    """The files a successful run has to leave behind: one set per input file and output option."""
+    outs, inputs, i = {}, [], 0
+    while i < len(argv):
+        a = argv[i]
+        if a in VALUE_OPTS:
+            if a in OUT_FILES and i + 1 < len(argv):
+                outs[a] = argv[i + 1]
+            i += 2
+            continue
+        if not a.startswith('-'):
+            inputs.append(a)
+        i += 1
+    want = []
+    for opt, d in sorted(outs.items()):
+        for inp in inputs:
+            stem = os.path.splitext(os.path.basename(inp))[0]
+            want += [os.path.join(d, f % stem) for f in OUT_FILES[opt]]
+    return want
+
+
 def all_outs(d):
     return ['--python_out', d, '--cpp_out', d, '--cpp_full_out', d, '--prophy_out', d]
 
@@ -311,7 +337,20 @@ def judge(job):
                     f.write(content)
             argv = argv_fn(d)
             budget = 5 * base_calls + 100000
+            before = {f: os.stat(f).st_mtime_ns for f in requested_outputs(argv) if os.path.exists(f)}
             o, detail, calls = run_main(argv, budget)
+            if o == 'return' and '--version' not in argv and '-h' not in argv:
+                # "writes all requested outputs and succeeds": every requested file is there, non-empty and written by this run
+                missing = [f for f in requested_outputs(argv)
+                           if not (os.path.isfile(f) and (os.path.getsize(f) > 0 or f.endswith('.prophy'))
+                                   and os.stat(f).st_mtime_ns != before.get(f))]
+                out['outputs_checked'] = out.get('outputs_checked', 0) + len(requested_outputs(argv))
+                if missing:
+                    opts = sorted(set(a for a in argv if a in OUT_FILES))
+                    viol('success-without-output|%s|missing=%s' % ('+'.join(opts), '+'.join(sorted(set(
+                        '.'.join(os.path.basename(m).split('.')[1:]) for m in missing)))), label, files_json(files),
+                        [a.replace(d, '<dir>') for a in argv], 'exit ok, no diagnostic, but not written: %s' % ', '.join(
+                            m.replace(d, '<dir>') for m in missing))
             out['runs'] += 1
             out['outcomes'][o] = out['outcomes'].get(o, 0) + 1
             out['max_ratio'] = max(out['max_ratio'], calls / float(base_calls))
@@ -360,6 +399,21 @@ def judge(job):
                 mode = ['--isar'] if main.endswith('.xml') else []
                 record(label, files, lambda d, main=main, mode=mode: mode + all_outs(d) + [os.path.join(d, main)],
                        base_calls, ' '.join(label.split()[:3]))
+        elif kind == 'outputs':
+            # every non-empty subset of the four output options, in every order of two, x front-end x one or two inputs
+            combos, base_calls = items
+            for mode, inputs, opts in combos:
+                files = {'m.prophy': BASES['arrays'], 'n.prophy': BASES['consts'], 'm.xml': ISAR_BASES['isar_all'],
+                         'n.xml': ISAR_INC}
+
+                def argv_fn(d, mode=mode, inputs=inputs, opts=opts):
+                    argv = list(mode)
+                    for o_ in opts:
+                        sub = os.path.join(d, o_.strip('-'))
+                        os.mkdir(sub)
+                        argv += [o_, sub]
+                    return argv + [os.path.join(d, i_) for i_ in inputs]
+                record('outputs %s %s %s' % (' '.join(mode), ' '.join(opts), ' '.join(inputs)), files, argv_fn, base_calls, 'outputs')
         elif kind == 'options':
             combos, base_calls = items
             for combo in combos:
@@ -533,6 +587,13 @@ def run(ctx):
     jobs.append(('include', (include_cases(), 60000), ctx.tier))
     jobs.append(('include', ([('idiom: ' + n, {'m.prophy': t}, 'm.prophy') for n, t in extra_texts()], 60000), ctx.tier))
     jobs.append(('include', ([('idiom: ' + n, {'m.xml': t}, 'm.xml') for n, t in extra_isar()], 60000), ctx.tier))
+    outs = []
+    for mode, inputs in (((), ('m.prophy',)), ((), ('m.prophy', 'n.prophy')), (('--isar',), ('m.xml',)), (('--isar',), ('m.xml', 'n.xml'))):
+        for r in (1, 2, 3, 4):
+            for opts in itertools.permutations(sorted(OUT_FILES), r):
+                outs.append((mode, inputs, opts))
+    for k in range(0, len(outs), 64):
+        jobs.append(('outputs', (outs[k:k + 64], 60000), ctx.tier))
     combos = []
     for r in (1, 2, 3):
         combos += list(itertools.combinations(OPTION_POOL, r))
@@ -555,7 +616,7 @@ def run(ctx):
         if kind in ('prophy', 'isar'):
             name, label_texts, base_calls = items
             singles += [(kind, (name, [lt], base_calls), tier) for lt in label_texts]
-        elif kind in ('digraph', 'patch', 'options', 'include'):
+        elif kind in ('digraph', 'patch', 'options', 'include', 'outputs'):
             xs, base_calls = items
             singles += [(kind, ([x], base_calls), tier) for x in xs]
     for job, res in ctx.pmap_isolated(judge, singles, timeout=300):
@@ -578,6 +639,7 @@ def run(ctx):
         ctx.cov['transitions'] += res['runs']
         ctx.cov['traces_validated_against_impl'] += res['runs']
         ctx.cov['distinct_nontrivial'] += res['distinct']
+        ctx.cov['requested_output_files_checked'] = ctx.cov.get('requested_output_files_checked', 0) + res.get('outputs_checked', 0)
         ratio = max(ratio, res['max_ratio'])
         for k, n in res['outcomes'].items():
             ctx.outcome(k, n)
@@ -596,7 +658,9 @@ def run(ctx):
                        'garbled, truncations; all digraphs of type references on <= 3 typedef/struct/union definitions '
                        '(self-loops and cycles included); patch scripts: every rule x arity 0..5 x present/absent node and '
                        'member x numeric/non-numeric index; missing / self / cyclic / diamond includes; option subsets of '
-                       'size <= 3 incl. missing files and directories. Each runs the real prophyc.main under a call budget '
+                       'size <= 3 incl. missing files and directories; every ordered non-empty selection of the four output options x '
+                       '{prophy, isar} x {one, two} input files, each output to its own directory.  After every successful run '
+                       'each requested output file must exist, have been written by that run and be non-empty (an empty schema may render to an empty .prophy). Each runs the real prophyc.main under a call budget '
                        '(5 x base + 100000 function starts and loop iterations, counted with sys.monitoring). distinct_nontrivial = inputs prophyc refused. A forbidden internal '
                        'exception class or a blown budget is a violation; other exception classes are tallied in outcomes.' % (
                            nbase, len(ALPHABET), maxlen, len(SHORT_ALPHABET)))
@@ -614,7 +678,18 @@ def replay(art):
             with open(os.path.join(d, fn), 'wb') as f:
                 f.write(content.encode('latin-1'))
         argv = [a.replace('<dir>', d) for a in art['argv']]
+        for a in argv:
+            if a.startswith(d + os.sep) and not os.path.splitext(a)[1] and not os.path.exists(a) and not a.endswith('nodir'):
+                os.mkdir(a)
+        before = {f: os.stat(f).st_mtime_ns for f in requested_outputs(argv) if os.path.exists(f)}
         o, detail, calls = run_main(argv, 2000000)
+        if o == 'return' and '--version' not in argv and '-h' not in argv:
+            missing = [f for f in requested_outputs(argv)
+                       if not (os.path.isfile(f) and (os.path.getsize(f) > 0 or f.endswith('.prophy'))
+                               and os.stat(f).st_mtime_ns != before.get(f))]
+            if missing:
+                return 'prophyc %s\n-> succeeds without a diagnostic but does not write %s' % (
+                    ' '.join(art['argv']), ', '.join(m.replace(d, '<dir>') for m in missing))
         if o == 'BUDGET' or o.startswith('INTERNAL:'):
             return 'prophyc %s\ninputs: %s\n-> %s %s (%d calls)' % (' '.join(art['argv']), art['inputs'], o, detail, calls)
         return None
